@@ -326,8 +326,33 @@ def rt_cases():
         'tape_a': tape, 'tape_b': tape})
 
 
+# times that differ by less than the timetag resolution (2**-32 s): the
+# score is ordered by time, send order only breaks exact ties
+CLOSE = [0.3, 0.30000000000000004, 0.7999999999999999, 0.8, 1.0,
+         1.0000000000000002, 0.1 + 0.2, 0.25 + 0.05, 2.0, 1.9999999999999998]
+
+
+def close_programs():
+    def mk(lats):
+        top = [['bundle', lat, [['/b', i]]] for i, lat in enumerate(lats)]
+        return {'clocks': [], 'routines': {}, 'top': top, 'tail': 0}
+    return st.lists(st.sampled_from(CLOSE), min_size=2, max_size=6).map(mk)
+
+
+def run_close(p, v):
+    res = run_nrt(p, v)
+    lats = [op[1] for op in p['top']]
+    near = any(a != b and abs(a - b) < 2.0 ** -32 for a in lats for b in lats)
+    res['nontrivial'] = near
+    res['labels'] = list(res.get('labels', [])) + (
+        ['times_closer_than_timetag_resolution'] if near else [])
+    return res
+
+
 def stages(ctx):
     return [
+        Stage('nrt_close', run_close, close_programs(), quick=100,
+              thorough=1000),
         Stage('nrt', run_nrt, proggen.timing_program(sends=True, hand=True),
               quick=600,
               thorough=5000),
